@@ -1052,6 +1052,30 @@ Definition reader_entry_auto_first (o : fopts) : entry :=
   let automatic := opt_apply true true (o_ar o) (opt_apply true false (o_aa o) entry0) in
   opt_apply false true (o_er o) (opt_apply false false (o_ea o) automatic).
 
+(* ---- specs that reach one function through -T (trigger actions) as well as through -A / -R
+   libmcount (mcount_trigger_init): uftrace_setup_trigger, then _argument, then _retval: the actions of -T in the order
+   given - one action may carry argument and return value specs, in any order -, then the -A options, then the -R options.
+   The readers get two lines from the info file (cmds/info.c fill_arg_spec -> utils/auto-args.c extract_trigger_args):
+   argspec = the argument specs of every -T action, then the -A options; retspec = the return value specs of every -T
+   action (with their format, after the fix), then the -R options; they apply argspec, then retspec. *)
+Definition is_ret (s : spec) : bool := s_idx s =? 0.
+Definition dirb (d : bool) (s : spec) : bool := Bool.eqb (is_ret s) d.
+Definition opts := list (bool * list spec).                 (* (exact name?, specs) per option / action *)
+Definition restrict (d : bool) (o : opts) : opts := map (fun x => (fst x, filter (dirb d) (snd x))) o.
+Record xopts := { x_t : opts; x_a : opts; x_r : opts }.     (* -T actions, -A options, -R options for this function *)
+Definition writer_opts (x : xopts) : opts := x_t x ++ x_a x ++ x_r x.
+Definition reader_opts (x : xopts) : opts := restrict false (x_t x) ++ x_a x ++ restrict true (x_t x) ++ x_r x.
+(* the info lines put together the other way round (seed C09-8): options first, trigger specs behind them *)
+Definition reader_opts_options_first (x : xopts) : opts :=
+  x_a x ++ restrict false (x_t x) ++ x_r x ++ restrict true (x_t x).
+(* extract_trigger_args as found: the return value spec of a trigger action was reduced to a plain `retval` *)
+Definition plain_retval (s : spec) : spec :=
+  {| s_idx := 0; s_fmt := FAuto; s_size := 8; s_type := TIndex; s_u := 0%Z; s_regs := []; s_name := [] |}.
+Definition reader_opts_legacy (x : xopts) : opts :=
+  restrict false (x_t x) ++ x_a x ++ map (fun o => (fst o, map plain_retval (snd o))) (restrict true (x_t x)) ++ x_r x.
+(* what the payload of one direction is laid out by: the specs of that direction, in list order *)
+Definition dir_specs (d : bool) (o : opts) : list spec := filter (dirb d) (merge_opts o).
+
 (* test cases as the driver writes them: the specs are taken from the call *)
 Definition judge_of (c : call) (o : observation) (aargs aret : list aval) : judged :=
   {| j_args := combine (filter (fun s => negb (s_idx s =? 0)) (c_specs c)) aargs;
